@@ -20,6 +20,7 @@ type (
 		ExprBase
 		TypeX *TypeExpr
 		Args  []Expr
+		cast  bool // single differently sized operand: function-style cast
 	}
 	// hlslConv is an implicit conversion.
 	hlslConv struct {
@@ -296,10 +297,14 @@ func (x *hlslCtor) checkCustom(c *checker) Expr {
 	case len(x.Args) == 0:
 		c.invalid(x.Pos, "type", "constructor %s needs arguments", hlslTypeName(t))
 	case total == t.nsc:
-	case len(x.Args) == 1:
+	case len(x.Args) == 1 && hlslImplicitShape(x.Args[0].base().T, t):
 		// T(e) with a differently sized operand is a function-style cast: DXC
-		// accepts splat / truncation here, FXC reports X3014 for a scalar
-		// operand.  Not emitted by naga; left undecided.
+		// accepts splat / truncation here like (T)e; FXC is reported to reject a
+		// scalar operand (X3014).  naga emits float3(-0.75) in module-scope
+		// constants.  Modelled with DXC's meaning; recorded as a warning.
+		x.cast = true
+		c.prog.hl.warnings = append(c.prog.hl.warnings, "function-style cast "+hlslTypeName(t)+"("+hlslTypeName(x.Args[0].base().T)+") with a differently sized operand at "+x.Pos.String()+" (DXC: splat / truncation; FXC: X3014)")
+	case len(x.Args) == 1:
 		c.unsupported(x.Pos, "function-style cast %s(%s) with a differently sized operand", hlslTypeName(t), hlslTypeName(x.Args[0].base().T))
 	default:
 		// FXC error X3014: incorrect number of arguments to numeric-type constructor
@@ -309,6 +314,9 @@ func (x *hlslCtor) checkCustom(c *checker) Expr {
 }
 
 func (x *hlslCtor) evalCustom(ev *evaluator) Value {
+	if x.cast {
+		return ev.hlslConvertValue(ev.eval(x.Args[0]), x.T)
+	}
 	r := ev.mk(x.T)
 	tb := x.T.Base()
 	if tb == KDouble {
